@@ -5,9 +5,9 @@ CONSTANTS
   DynHeights <- QuickHeights
   DynGaps = {0, 1}
   DynViews = {1, 2, 3}
-  MaxText = 4
+  MaxText = 5
   Widths = {1, 2, 3}
 SPECIFICATION Spec
-INVARIANTS NoCrash LstRange DynRange LstLayout DynLayout PagerPresents PagerClamps
+INVARIANTS NoCrash LstRange DynRange LstLayout DynLayout PagerPresents PagerClamps OracleRows
 PROPERTIES VisibleAfterSelect
 CHECK_DEADLOCK FALSE
